@@ -70,9 +70,19 @@ def placements(rec):
             for n in sorted(local):
                 if rb.get(n) != local[n]:
                     res.append({'mode': 'reject', 'at': i, 'ref': n})
+            # the other way a server refuses a ref: somebody really moved it since the clone.  Done on the last
+            # branch of the cascade only (a commit there cannot break the inclusion the job starts from).
+            devs = sorted((n for n in rb if n.startswith('development/')), key=_dev_order)
+            if devs and devs[-1] in local and rb.get(devs[-1]) != local[devs[-1]]:
+                res.append({'mode': 'concurrent', 'at': i, 'ref': devs[-1]})
             for n in sorted(t.get('deleted') or []):
                 res.append({'mode': 'reject', 'at': i, 'ref': n})
     return res
+
+
+def _dev_order(n):
+    v = n.split('/', 1)[1].split('.')
+    return (int(v[0]), 10 ** 6 if len(v) == 1 else int(v[1]))
 
 
 HOOK = """#!/bin/sh
@@ -108,10 +118,15 @@ def recorder_fault(fault, ops):
     """The fault in the vocabulary of sysworld.Recorder.  A refused ref is made real: an `update` hook that
     rejects that one ref is installed in the bare repository immediately before operation `at` (through the
     Recorder's third-party slot), so that git itself decides what a named / an atomic push does with it."""
-    if fault['mode'] != 'reject':
+    if fault['mode'] not in ('reject', 'concurrent'):
         return dict(fault)
     k = sum(1 for o in ops[:fault['at']] if o['kind'] in ('push', 'push_all', 'rawpush'))
     ref = fault['ref']
+    if fault['mode'] == 'concurrent':
+        # a third party pushes a commit on that branch immediately before the operation: git refuses the ref as a
+        # non-fast-forward by itself
+        return {'mode': 'third_party', 'push_index': k, 'kind': 'concurrent-update',
+                'action': lambda w: w.apply({'e': 'push', 'branch': ref, 'label': 'concurrent_%d' % fault['at']})}
     return {'mode': 'third_party', 'push_index': k, 'kind': 'reject-hook',
             'action': lambda w: install_reject_hook(w, ref)}
 
@@ -124,7 +139,7 @@ def sample_placements(allp, ops, rng, limit):
 
     def cls(f):
         op = ops[f['at']]
-        if f['mode'] == 'reject' and op['kind'] == 'push_all' and is_dest(f['ref']):
+        if f['mode'] in ('reject', 'concurrent') and op['kind'] == 'push_all' and is_dest(f['ref']):
             return 0
         if f['mode'] == 'reject' and op['kind'] == 'push' and len(op['detail']) > 1:
             return 1
@@ -505,7 +520,8 @@ class Explorer:
         nswitch = 'none' if not moved_ok else ('all' if len(switched) == len(moved_ok) else
                                                ('no' if not switched else 'SOME'))
         # ---- CORR: the extracted model on the recorded publication list, same fault --------------------
-        if self.model is not None and pub is not None and enc.closed and enc.knows(before['refs']):
+        if self.model is not None and pub is not None and enc.closed and enc.knows(before['refs']) \
+                and fault['mode'] != 'concurrent':
             try:
                 req = 'publish %s %s %s %s' % (enc.store(), enc.refs(before['refs']), M.enc_fault(enc, fault),
                                                M.enc_ops(enc, pub))
@@ -555,6 +571,19 @@ class Explorer:
             self.violation(ev, fault, '%s broken after %s at operation %d (%s) of %s followed by the recovery (%s)' % (
                 v['what'], fault['mode'], fault.get('at', 0), opk, jk, path), key, v)
         diff = M.tree_differences(trees_ok, trees_r)
+        if fault['mode'] == 'concurrent':
+            # the third party's commit is part of the content now: instead of equality, every pull request the
+            # uninterrupted run landed on a branch is on that branch after the recovery
+            diff = []
+            refs_r = world.refs()
+            # (only when the re-delivery ends the way the uninterrupted run did: with the branch moved, a pull
+            # request that could be merged directly may now have to go through the queue first)
+            for p in (prs if st == status_ok else []):
+                for t in p['targets']:
+                    if t in refs_ok and t in refs_r and world.is_ancestor(p['tip'], refs_ok[t]) \
+                            and not world.is_ancestor(p['tip'], refs_r[t]):
+                        diff.append(t)
+            diff = sorted(set(diff))
         if diff and twin is not None and not M.tree_differences(twin[2], trees_r):
             self.count('recovery_equals_twice_delivered_twin')
             diff = []
